@@ -13,7 +13,7 @@ from . import common
 
 LEVEL = "exploration"
 RULE = ("case = random family + type T (often a dataclass, plain or mixin, with aliases / unions / Config; also Annotated, "
-        "Optional and generic specialisations whose arguments are same-named classes of two modules). For every value the "
+        "Optional and generic specialisations whose arguments are same-named classes of two modules; unions of 2-3 dataclasses in any order with a value of each member). For every value the "
         "results of ALL entry points are compared pairwise: mixin to_dict/from_dict, BasicEncoder/BasicDecoder(T), one-shot "
         "encode/decode, T inside List / Dict[str, .] / Optional / Tuple[., int] codecs, T as field of a mixin dataclass and of "
         "a plain dataclass driven through a codec; decoding is compared on the valid document and on hostile variants "
@@ -84,6 +84,26 @@ def run_case(seed, tier, rec, st):
                              "Resp2": [mod.Resp2(p2)]}[which]
             # compile the first specialisation earlier through another entry point
             mod.Resp1(p1).to_dict()
+        elif kind < 0.70:
+            # union of dataclasses told apart by their required fields, in any declaration order, every member used
+            n = rng.randint(2, 3)
+            names = []
+            for i in range(n):
+                nm = f"U{i}"
+                mix = "(DataClassDictMixin)" if rng.random() < 0.6 else ""
+                ft = rng.choice(["int", "str", "List[str]", "datetime.date"])
+                fam.exec_src(f"@dataclass\nclass {nm}{mix}:\n    name: str\n    only_{nm.lower()}: {ft}\n    opt_{nm.lower()}: Optional[int] = None\n")
+                names.append((nm, ft))
+            order_ = [nm for nm, _ in names]
+            rng.shuffle(order_)
+            which = "Union[" + ", ".join(order_) + "]"
+            if rng.random() < 0.3:
+                which = f"Optional[{which}]"
+            t = ("raw", which)
+            import datetime
+            sample = {"int": 3, "str": "s", "List[str]": ["a", "b"], "datetime.date": datetime.date(2020, 1, 2)}
+            vals_override = [getattr(fam.module, nm)("n" + nm, sample[ft]) for nm, ft in names]
+            rng.shuffle(vals_override)
         else:
             t = tg.type(rng.randint(0, 2))
             if rng.random() < 0.3 and tast.strip(t)[0] not in ("opt", "none", "any", "union"):
@@ -114,7 +134,7 @@ def run_case(seed, tier, rec, st):
         tshape = tsrc if t[0] == "raw" else tast.shape_hash(t)
         extra_objects = []
         for j in range(nvals):
-            v = vals_override[0] if vals_override else vg.value(t, 3)
+            v = vals_override[j % len(vals_override)] if vals_override else vg.value(t, 3)
             rec.evaluation()
             # ---------------- encode through every entry point
             routes = {"codec": lambda: enc.encode(v), "func": lambda: mbasic.encode(v, T)}
@@ -161,6 +181,39 @@ def run_case(seed, tier, rec, st):
                 if not same_outcome(again, base):
                     rec.violation("history:encoder-changed-after-creating-codecs", {"type": tsrc, "before": common.short(base), "after": common.short(again)},
                                   {"type_kinds": kinds(fam, t)})
+            # ---------------- format codecs: a user default_dialect that sets nothing is the same entry point
+            if isinstance(T, type) and j < 2:
+                from mashumaro.dialect import Dialect as _Dialect
+                neutral = type("Neutral", (_Dialect,), {})
+                for modname, ename in (("json", "JSONEncoder"), ("orjson", "ORJSONEncoder"), ("yaml", "YAMLEncoder"),
+                                       ("msgpack", "MessagePackEncoder"), ("toml", "TOMLEncoder")):
+                    E = getattr(__import__(f"mashumaro.codecs.{modname}", fromlist=[ename]), ename)
+                    a = outcome(lambda: E(T).encode(v))
+                    b = outcome(lambda: E(T, default_dialect=neutral).encode(v))
+                    rec.evaluation()
+                    if same_outcome(a, b):
+                        rec.count("format_codec_neutral_dialect_agree")
+                    else:
+                        rec.violation(f"encode-disagree:{ename}-neutral-default-dialect:{a[0]}->{b[0]}",
+                                      {"type": tsrc, "value": common.short(v), "plain": common.short(a, 300), "with_neutral_dialect": common.short(b, 300),
+                                       "family": fam.to_json()}, {"routes": [ename], "type_kinds": kinds(fam, t)})
+            # ---------------- history: the one-shot functions were first used with the SAME members in another order
+            # (typing compares Unions as sets; the library tries members in declaration order)
+            if j == 0:
+                import typing
+                args_ = typing.get_args(T)
+                if typing.get_origin(T) is typing.Union and len(args_) >= 2:
+                    try:
+                        Trev = typing.Union[tuple(reversed(args_))]
+                        if Trev is not T:
+                            rec.count("history_one_shot_with_reordered_union")
+                            for fn in (lambda: mbasic.decode(d0, Trev), lambda: mbasic.encode(v, Trev)):
+                                try:
+                                    fn()
+                                except Exception:
+                                    pass
+                    except Exception:
+                        pass
             # ---------------- decode through every entry point (valid + hostile)
             inputs = [("valid", d0)] + [(m[0], m[1]) for m in mutations(d0, rng, 3 if tier == "quick" else 6)]
             for label, d in inputs:
@@ -185,7 +238,7 @@ def run_case(seed, tier, rec, st):
                                    "others": {n: common.short(res[n], 300) for n in bad[:4]}, "family": fam.to_json()},
                                   {"routes": bad, "type_kinds": kinds(fam, t), "input_is_none": d is None,
                                    # Optional[Union[A, B]] is Union[A, B, None]: the None member's fallback (finding F02)
-                                   "explained_by": "F02" if (bad == ["optional"] and t[0] != "raw" and tast.strip(t)[0] in ("union", "tv")
+                                   "explained_by": "F02" if (bad == ["optional"] and ((t[0] == "raw" and t[1].startswith(("Union[", "Optional[Union["))) or (t[0] != "raw" and tast.strip(t)[0] in ("union", "tv")))
                                                              and res["optional"] == ("ok", None) and rbase[0] == "raise") else None})
                 else:
                     rec.count("decode_all_agree")
